@@ -78,7 +78,8 @@ def _dataclass_parameters(class_: Class) -> list[Parameter]:
     # Iterate on current attributes to find parameters.
     parameters = []
     for member in class_.members.values():
-        if member.is_attribute:
+        # Imported names (aliases) are not fields, and asking for their kind would try to resolve them.
+        if not member.is_alias and member.is_attribute:
             member = cast("Attribute", member)
 
             # All dataclass parameters have annotations.
